@@ -5,6 +5,7 @@ import (
 	"fmt"
 	"io"
 	"math/big"
+	"os"
 	"os/exec"
 	"strings"
 	"time"
@@ -30,19 +31,19 @@ func (r Result) String() string {
 
 // Solver is one long-lived solver process driven over a pipe.
 type Solver struct {
-	Kind      string // z3 | z3-new | cvc5
-	cmd       *exec.Cmd
-	in        io.WriteCloser
-	out       *bufio.Reader
-	TimeoutMS int
-	defined   map[int]bool
-	declared  map[string]bool
-	nlit      int
-	Queries   int
-	Time      time.Duration
-	Errors    []string
-	Log       io.Writer // optional transcript
-	dead      bool
+	Kind       string // z3 | z3-new | cvc5
+	cmd        *exec.Cmd
+	in         io.WriteCloser
+	out        *bufio.Reader
+	TimeoutMS  int
+	defined    map[int]bool
+	declared   map[string]bool
+	nlit       int
+	Queries    int
+	Time       time.Duration
+	Errors     []string
+	Log        io.Writer // optional transcript
+	dead       bool
 	pendingPop bool
 }
 
@@ -79,6 +80,11 @@ func (s *Solver) start() error {
 		return err
 	}
 	s.cmd, s.in, s.out = cmd, in, bufio.NewReaderSize(out, 1<<16)
+	if d := os.Getenv("GOSYM_DUMP"); d != "" && s.Log == nil {
+		if f, err := os.CreateTemp(d, "solver_*.smt2"); err == nil {
+			s.Log = f
+		}
+	}
 	s.dead = false
 	s.resetState()
 	s.prelude()
